@@ -132,6 +132,10 @@ func (e *env) abandon(why string) {
 		e.logf("ABANDONED: %s", why)
 		e.st.Add("abandoned_foreign_divergence", 1)
 		e.st.Add("abandoned:"+why, 1)
+		if d := os.Getenv("VERIF_ABANDON_DUMP"); d != "" {
+			// development aid: keep the trace of abandoned cases so that they can be reviewed
+			_ = os.WriteFile(filepath.Join(d, fmt.Sprintf("abandoned-%d.txt", time.Now().UnixNano())), []byte(why+"\n"+strings.Join(e.trace, "\n")+"\n"), 0o644)
+		}
 	}
 	panic(abandonSignal{})
 }
